@@ -547,6 +547,50 @@ class Fn:
                     heads.add(int(m.group(1)))
         return sorted(heads)
 
+    def loop_assigned(self, head):
+        """source-level variables assigned in the blocks of the loop with head `head` (blocks from which the head is
+        reachable again): what a specification of the loop state has to cover"""
+        self.parse()
+        succ = {}
+        for i, b in self.blocks.items():
+            if b.cleanup or not b.raw:
+                continue
+            t = b.raw[-1]
+            tail = t.split('->', 1)[1] if '->' in t else ''
+            tail = re.sub(r'unwind: bb\d+', '', tail)
+            ts = set(int(x) for x in re.findall(r'bb(\d+)', tail))
+            succ[i] = ts
+        # forward reachability from head, then keep blocks that can reach head
+        fwd, todo = set(), [head]
+        while todo:
+            x = todo.pop()
+            if x in fwd:
+                continue
+            fwd.add(x)
+            todo.extend(succ.get(x, ()))
+        can = {head}
+        changed = True
+        while changed:
+            changed = False
+            for x in fwd:
+                if x not in can and succ.get(x, set()) & can:
+                    can.add(x)
+                    changed = True
+        body = fwd & can
+        assigned = set()
+        for x in body:
+            for t in self.blocks[x].raw:
+                m = re.match(r'^_(\d+) = ', t)
+                if m:
+                    assigned.add(int(m.group(1)))
+                for m in re.finditer(r'&mut _(\d+)\b', t):
+                    assigned.add(int(m.group(1)))
+        names = set()
+        for name, idxs in self.debug.items():
+            if idxs[0] in assigned:
+                names.add(name)
+        return names
+
     def parse(self):
         if self._parsed:
             return self
